@@ -45,19 +45,21 @@ def upd {β : Type} (f : Nat → β) (i : Nat) (v : β) : Nat → β := fun j =>
 /-! ## network types and collection indices -/
 
 /-- The `NetworkType` values that reach the health code. `t`=TCP, `T`=TCP with `IsDns`,
-`d`=UDP/DNS domain, `u`=UDP/data domain, `x`=UDP with the domain unset (falls back to data). -/
+`d`=UDP/DNS domain (`IsDns` set), `u`=UDP/data domain, `x`=UDP with the domain unset (falls back to
+data), `y`=UDP, domain unset but `IsDns` set (still data: `IsDns` is ignored for UDP), `z`=UDP/DNS
+domain with `IsDns` clear (still DNS). -/
 inductive Typ
-  | t4 | t6 | T4 | T6 | d4 | d6 | u4 | u6 | x4 | x6
+  | t4 | t6 | T4 | T6 | d4 | d6 | u4 | u6 | x4 | x6 | y4 | y6 | z4 | z6
 deriving DecidableEq, Repr, Inhabited
 
 /-- `NetworkType.Index()` (= `HealthKey().CollectionIndex()`): TCP-DNS shares the TCP slot. -/
 def Typ.idx : Typ → Nat
   | .t4 | .T4 => 4
   | .t6 | .T6 => 5
-  | .d4 => 2
-  | .d6 => 3
-  | .u4 | .x4 => 6
-  | .u6 | .x6 => 7
+  | .d4 | .z4 => 2
+  | .d6 | .z6 => 3
+  | .u4 | .x4 | .y4 => 6
+  | .u6 | .x6 | .y6 => 7
 
 def Typ.isUdp : Typ → Bool
   | .t4 | .t6 | .T4 | .T6 => false
@@ -65,7 +67,7 @@ def Typ.isUdp : Typ → Bool
 
 /-- `L4Proto == UDP && EffectiveUdpHealthDomain() == UdpHealthDomainData`. -/
 def Typ.isData : Typ → Bool
-  | .u4 | .u6 | .x4 | .x6 => true
+  | .u4 | .u6 | .x4 | .x6 | .y4 | .y6 => true
   | _ => false
 
 /-- `collections[0]`/`[1]` are the same objects as `collections[4]`/`[5]`. -/
